@@ -277,6 +277,7 @@ def run(ctx: Ctx):
             else:
                 ctx.check(v.get("ok", False), "R01.h", key, f"{r} (vetted)", f"numpy printer: {name} falls through to {r}: {v.get('why', 'not value-preserving')}", "")
     printers.check_no_unvetted_override(ctx, "R01.h", "numpy", skip=("sign", "DiracDelta"))
+    printers.check_function_table(ctx, "R01.h", "numpy")
     printers.check_float_repr(ctx, "R01.h", "numpy")
     for cname, fn in (("And", "numpy.logical_and"), ("Or", "numpy.logical_or")):
         f = M.method("numpy", f"_print_{cname}")
